@@ -39,3 +39,97 @@ def partitions(n, k):
     keys = ["new_page"] + ["s%d" % i for i in range(1, min(k, n - 1) + 1)] + ["g%d" % i for i in range(1, min(k, n - 1) + 1)]
     for vals in itertools.product([False, True], repeat=len(keys)):
         yield dict(zip(keys, vals))
+
+
+HDR_GLUE = r'''
+from vf.hlib import NS
+from vf.fakes import FakeFrame
+import rtflite as rtf
+import rtflite.encoding.unified_encoder as ue
+from rtflite.encoding.unified_encoder import UnifiedRTFEncoder
+from rtflite.services.encoding_service import RTFEncodingService
+from rtflite.pagination.strategies import StrategyRegistry
+COLS = ["a", "b", "c", "d"]
+
+
+def run_section(body, n_pages):
+    """real UnifiedRTFEncoder._encode_body_section with the polars/pydantic boundary replaced by recorders"""
+    seen = {}
+    class RecStrategy:
+        name = None
+        def paginate(self, ctx):
+            seen["ctx"] = ctx
+            seen["strategy"] = self.name
+            return [NS(tag="page%d" % i, data=NS(height=1, width=1)) for i in range(n_pages)]
+    def mk(nm):
+        return type("Rec_" + nm, (RecStrategy,), {"name": nm})
+    def post(pages, processed, rtf_body):
+        seen["post"] = (list(pages), processed, rtf_body)
+    me = NS(encoding_service=RTFEncodingService(),
+            document_service=NS(calculate_additional_rows_per_page=lambda d: 7),
+            feature_processor=NS(process=lambda d, p: NS(processed=p)),
+            renderer=NS(render=lambda d, p: [("RENDER", p.processed.tag)]),
+            _apply_data_post_processing=post)
+    saved_reg = dict(StrategyRegistry._strategies)
+    saved = (ue.pl, ue.PaginationContext, ue.PageContext)
+    StrategyRegistry._strategies.update({"default": mk("default"), "page_by": mk("page_by"), "subline": mk("subline")})
+    ue.pl = NS(DataFrame=FakeFrame)
+    ue.PaginationContext = lambda **kw: NS(**kw)
+    ue.PageContext = lambda **kw: NS(tag="empty", **kw)
+    try:
+        df = FakeFrame({c: [c + "0", c + "1"] for c in COLS})
+        doc = NS(rtf_page=NS(col_width=6.0), rtf_body=body)
+        out = UnifiedRTFEncoder._encode_body_section(me, doc, df, body)
+    finally:
+        ue.pl, ue.PaginationContext, ue.PageContext = saved
+        StrategyRegistry._strategies.clear()
+        StrategyRegistry._strategies.update(saved_reg)
+    return seen, out
+'''
+
+
+def glue_ob(oid, timeout):
+    """_encode_body_section hands the pagination strategy a consistent context (shared by C02 and C03)."""
+    return Ob(
+        oid=oid, sig="pa: bool, pb: bool, sb: bool, sd: bool, new_page: bool, first_row: bool, empty: bool",
+        pre=["not (pb and sb)", "(pa or pb) or not new_page"], header=HDR_GLUE, timeout=timeout,
+        body=r'''
+    page_by = [c for c, f in zip("ab", (pa, pb)) if f] or None
+    subline_by = [c for c, f in zip("bd", (sb, sd)) if f] or None
+    body = rtf.RTFBody(page_by=page_by, subline_by=subline_by, new_page=True if new_page else False,
+                       pageby_row="first_row" if first_row else "column", col_rel_width=[1, 2, 3, 4])
+    seen, out = run_section(body, 0 if empty else 2)
+    removed = set(subline_by or [])
+    if page_by and (not new_page or first_row):
+        removed |= set(page_by)
+    shown = [c for c in COLS if c not in removed]
+    ctx = seen["ctx"]
+    ok = seen["strategy"] == ("subline" if subline_by else ("page_by" if page_by else "default"))
+    ok = ok and ctx.df.columns == COLS and ctx.rtf_body is body
+    ok = ok and list(ctx.removed_column_indices or []) == [i for i, c in enumerate(COLS) if c in removed]
+    ok = ok and len(ctx.col_widths) == len(shown) and ctx.additional_rows_per_page == 7
+    ok = ok and list(ctx.table_attrs.col_rel_width) == [w for w, c in zip([1, 2, 3, 4], COLS) if c in shown]
+    tot = sum(w for w, c in zip([1, 2, 3, 4], COLS) if c in shown)
+    acc = 0.0
+    for w, cw in zip(ctx.table_attrs.col_rel_width, ctx.col_widths):
+        acc += w * 6.0 / tot
+        ok = ok and abs(cw - acc) < 1e-9
+    pages, processed, b2 = seen["post"]
+    ok = ok and processed.columns == shown and b2 is body
+    if empty:
+        ok = ok and len(pages) == 1 and pages[0].tag == "empty" and out == [("RENDER", "empty")]
+    else:
+        ok = ok and out == [("RENDER", "page0"), ("RENDER", "page1")]
+    return ok
+''',
+        funcs=["rtflite.encoding.unified_encoder:UnifiedRTFEncoder._encode_body_section",
+               "rtflite.services.encoding_service:RTFEncodingService.prepare_dataframe_for_body_encoding",
+               "rtflite.row:Utils._col_widths"],
+        stubs=["data frame -> FakeFrame (accepted by an isinstance stand-in for pl.DataFrame)",
+               "PaginationContext/PageContext -> recording namespaces", "strategies -> recorder returning 0 or 2 pages",
+               "document service / feature processor / renderer -> recorders"],
+        bounds="4 columns with widths 1:2:3:4; page_by subset of {a,b}, subline_by subset of {b,d}, new_page, pageby_row, empty "
+               "result symbolic",
+        what="the pagination context gets the ORIGINAL frame, the indices of exactly the removed columns, one cumulative width per "
+             "displayed column, the reserved rows, the strategy matching the grouping mode; pages are post-processed with the "
+             "column-reduced frame and rendered once each in order (an empty result still renders one page)")
